@@ -587,12 +587,14 @@ theorem C13_faithful_unwritten (S : KS) (d : TV) (v : Val) (t : TV) (p : List St
     getPath S t p = getPath S d p :=
   untouched_unchanged S d v t p hs hd hu
 
-/-- **Effective configuration**: the marshalled typed configuration shows every written leaf with its
-written value — and the redaction marker where the leaf is an opaque string. -/
+/-- **Effective configuration**: at every written leaf the marshalled typed configuration shows what the
+encoder shows for a leaf of that kind holding the written value (`shownAs`): the value itself for plain
+kinds, the redaction marker for an opaque string, and for a map / slice of opaque strings (headers) the
+written keys with every VALUE redacted — see the three corollaries below. -/
 theorem C13_effective (S : KS) (d : TV) (v : Val) (t : TV) (p : List String) (x : Val)
     (hs : shape S d = true) (hd : decodeV S d v = some t) (hv : valGet v p = some x)
     (hk : (kindAt S p).map isLeafKind = some true) :
-    evGet (encodeV S t) p = some (shown ((kindAt S p).map isOpaqueKind) x) :=
+    evGet (encodeV S t) p = shownAs (kindAt S p) x :=
   effective_shows S t p x (decode_shape S d v t hs hd) (written_reflected S d v t p x hs hd hv hk) hk
 
 /-- non-vacuity: writing `tls::key_pem` and `endpoint` below a nil optional; `read_buffer_size` untouched -/
@@ -633,12 +635,26 @@ theorem C13_faithful_written_hooked (hooks : List Hook) (S : KS) (d : TV) (v : V
     getS S t p = some (.atom x) :=
   written_reflected_hooked hooks S d v t p x hs hd hv hk hc
 
+/-- what `shownAs` is, kind by kind: secrets are redacted also as elements of maps and slices -/
+theorem C13_effective_opaque_redacted (x : Val) : shownAs (some .opaque) x = some .redacted := rfl
+
+theorem C13_effective_opaque_map_elements_redacted (ko : Bool) (kvs : List (String × Val)) :
+    shownAs (some (.map ko .opaque)) (.map kvs) = some (.map (kvs.map (fun p => (p.1, EV.redacted)))) := rfl
+
+theorem C13_effective_opaque_slice_elements_redacted (vs : List Val) :
+    shownAs (some (.slice .opaque)) (.list vs) = some (.list (vs.map (fun _ => EV.redacted))) := rfl
+
+theorem C13_effective_plain_verbatim (x : Val) :
+    shownAs (some .scalar) x = some (.val x) ∧ (∀ n, shownAs (some (.text n)) x = some (.val x)) ∧
+    shownAs (some (.slice .scalar)) x = some (.val x) ∧ (∀ ko, shownAs (some (.map ko .scalar)) x = some (.val x)) :=
+  ⟨rfl, fun _ => rfl, rfl, fun _ => rfl⟩
+
 /-- … and the effective configuration shows it (redacted where opaque). -/
 theorem C13_effective_hooked (hooks : List Hook) (S : KS) (d : TV) (v : Val) (t : TV) (p : List String) (x : Val)
     (hs : shape S d = true) (hw : ∀ h ∈ hooks, h.wellPlaced S = true) (hd : decodeC hooks S d v = some t)
     (hv : valGet v p = some x) (hk : (kindAt S p).map isLeafKind = some true)
     (hc : ∀ h ∈ hooks, h.compatible v p = true) :
-    evGet (encodeV S t) p = some (shown ((kindAt S p).map isOpaqueKind) x) :=
+    evGet (encodeV S t) p = shownAs (kindAt S p) x :=
   effective_shows S t p x (decodeC_shape hooks S d v t hs hw hd)
     (written_reflected_hooked hooks S d v t p x hs hd hv hk hc) hk
 
@@ -676,7 +692,12 @@ by `translators/cmd/unmarshalhooks`; a changed body has to be re-modelled) -/
 theorem C13_hook_bodies_as_modelled : Gen.UnmarshalHooks.bodies =
     [("queuebatch.Config", "3777169255574fb5d81fac26ddfab4057e5ec4f4401a9fa6a2427885c74534a2"),
      ("otlpreceiver.Config", "9a8d8bb2dace14b923772a9a4c9e1027a4268861d3f5e71003168db0f577066b"),
-     ("otlpexporter.Config", "5c336cc63ed79c6d70b775bf8a0756cca9543546da5e7f0c1339a5c17f7b08f5")] := by decide
+     ("otlpexporter.Config", "5c336cc63ed79c6d70b775bf8a0756cca9543546da5e7f0c1339a5c17f7b08f5"),
+     -- service section: fingerprints only (these four are NOT modelled; their strictness and faithfulness are probed by the harness)
+     ("telemetry.Config", "1fa71947749faef6b73cfa5c1c80075db6875beac1f913a72034c014b105e186"),
+     ("migration.TracesConfigV030", "1ba9a87292570564fe821ce801dbd5a51eb81d66bb413d6a0792b8989ac382f3"),
+     ("migration.MetricsConfigV030", "13f5d6c5c194abe01fc46134145b8748d89af054cd2896416249c80bb9c76c4e"),
+     ("migration.LogsConfigV030", "b909d8abf8984fa5a97e34987d10badd1f96955e360f3f91318e9d51ac1908c9")] := by decide
 
 /-- the named exceptions: the key paths a fix-up may rewrite although they are not written (`blocking`
 alias target, unwritten OTLP receiver protocols, the subtree of a written deprecated `batcher`) and the
